@@ -93,11 +93,11 @@ PROPS = {
         trusted=['T3 as C01', 'T4 abstract Writer (a split cursor only buffers)'],
     ),
     'C12': dict(
-        vx_units=['server', 'vfs'], kx=[], rx=['init'],
+        vx_units=['server', 'vfs', 'ptinit'], kx=[], rx=['init'],
         design_ref='DESIGN.md section 5, C12',
         not_covered=[
             'Vfs::destroy and backends mounted AFTER init (Vfs::mount_with_id_mapping initialises them; mount path not covered)',
-            'PassthroughFs::init / OverlayFs::init (start with import() = syscalls; switches are AtomicBool stores on &self)',
+            'OverlayFs::init; for PassthroughFs::init the converse (feature negotiated => switch IS stored) and the effect of the switches on later requests',
             'that the negotiated version IS stored (obligation to act); only that nothing but the client\'s (major, minor) may be stored',
             'fields of the INIT reply the property does not constrain (max_background, congestion_threshold, time_gran, minor)',
         ],
